@@ -8,10 +8,14 @@ package main
 // A scenario is a genesis variant (brCfg) plus a list of symbolic operations (the events of
 // the BurnRedirect machine: delegate / undelegate / redelegate / slash(kind, validator) /
 // age / mature / unjail / submit / deposit / veto / reject / pass / noquorum / expire /
-// burn(module)).  The executor turns them into full ABCI blocks on a chainkit node with three
+// burn(module) / setparam(key, denom, val)).  The executor turns them into full ABCI blocks on a chainkit node with three
 // validators that have real consensus keys: downtime is produced by feeding absent votes to
 // the real slashing module until it slashes, double signs by duplicate-vote evidence to the
-// real evidence module, deposit burns by real gov transactions and block time.
+// real evidence module, deposit burns by real gov transactions and block time, changes of the
+// configuration (bank send-enabled switches, distribution community tax, gov burn switches and
+// deposit denominations, erc20 switches, slash fractions) by real proposals that carry the
+// authority message of the module, are voted by the validators and executed by gov's EndBlock.
+// The genesis variant can start from a non-default configuration (brParams).
 //
 // Measurement: one trace line after every BeginBlock ("begin"), every DeliverTx ("tx") and
 // every EndBlock ("end"), each with the projection of the real stores after the call.  The
@@ -48,6 +52,7 @@ import (
 	stakingtypes "github.com/cosmos/cosmos-sdk/x/staking/types"
 
 	"github.com/haqq-network/haqq/utils"
+	erc20types "github.com/haqq-network/haqq/x/erc20/types"
 	liquidvestingtypes "github.com/haqq-network/haqq/x/liquidvesting/types"
 	vestingtypes "github.com/haqq-network/haqq/x/vesting/types"
 )
@@ -74,6 +79,17 @@ type brCfg struct {
 	UnbondingSecs int64      `json:"unbondingSecs"`
 	SlashDouble   string     `json:"slashDouble"`   // decimal fraction
 	SlashDowntime string     `json:"slashDowntime"` // decimal fraction
+	Params        *brParams  `json:"params,omitempty"` // non-default configuration at genesis
+}
+
+// brParams is the part of the genesis configuration that the redirect must not depend on.
+type brParams struct {
+	SendDefaultOff  bool            `json:"sendDefaultOff,omitempty"`  // bank default_send_enabled = false
+	Send            map[string]bool `json:"send,omitempty"`            // explicit bank send_enabled entries
+	CommunityTax    string          `json:"communityTax,omitempty"`    // decimal; "" = the default
+	Erc20Off        bool            `json:"erc20Off,omitempty"`        // erc20 enable_erc20 = false
+	EvmHookOff      bool            `json:"evmHookOff,omitempty"`      // erc20 enable_evm_hook = false
+	WithdrawAddrOff bool            `json:"withdrawAddrOff,omitempty"` // distribution withdraw_addr_enabled = false
 }
 
 func brDefaultCfg(seed int64) brCfg {
@@ -176,7 +192,29 @@ func brGenesis(w *World, cfg brCfg) map[string]json.RawMessage {
 		}
 		bank.Supply = bank.Supply.Add(sdk.NewCoin(cfg.Denom2, amt.MulRaw(int64(n))))
 	}
+	if pr := cfg.Params; pr != nil {
+		bank.Params.DefaultSendEnabled = !pr.SendDefaultOff
+		for _, d := range sortedKeys(pr.Send) {
+			bank.SendEnabled = append(bank.SendEnabled, banktypes.SendEnabled{Denom: d, Enabled: pr.Send[d]})
+		}
+	}
 	gs[banktypes.ModuleName] = cdc.MustMarshalJSON(&bank)
+
+	if pr := cfg.Params; pr != nil {
+		var ds distrtypes.GenesisState
+		cdc.MustUnmarshalJSON(gs[distrtypes.ModuleName], &ds)
+		if pr.CommunityTax != "" {
+			ds.Params.CommunityTax = sdkmath.LegacyMustNewDecFromStr(pr.CommunityTax)
+		}
+		ds.Params.WithdrawAddrEnabled = !pr.WithdrawAddrOff
+		gs[distrtypes.ModuleName] = cdc.MustMarshalJSON(&ds)
+
+		var eg erc20types.GenesisState
+		cdc.MustUnmarshalJSON(gs[erc20types.ModuleName], &eg)
+		eg.Params.EnableErc20 = !pr.Erc20Off
+		eg.Params.EnableEVMHook = !pr.EvmHookOff
+		gs[erc20types.ModuleName] = cdc.MustMarshalJSON(&eg)
+	}
 
 	var gov govv1.GenesisState
 	cdc.MustUnmarshalJSON(gs[govtypes.ModuleName], &gov)
@@ -237,6 +275,7 @@ type brExec struct {
 	lastAge int64
 	nvest   int
 	nliq    int
+	nparam  int // parameter-change proposals submitted so far
 	liqHold map[int]string // liquid denom id -> holder
 	stats   map[string]int
 }
@@ -275,6 +314,116 @@ func (x *brExec) accName(bech string) string {
 		return nm
 	}
 	return "x" + digest([]byte(bech))[:6]
+}
+
+// envOf reads the configuration from the parameter stores of the modules.
+func (x *brExec) envOf(ctx sdk.Context) M {
+	a := x.n.App
+	gp := a.GovKeeper.GetParams(ctx)
+	send, minDep := M{}, M{}
+	for _, d := range x.denoms {
+		s := "unset"
+		if e, found := a.BankKeeper.GetSendEnabledEntry(ctx, d); found {
+			s = map[bool]string{true: "on", false: "off"}[e.Enabled]
+		}
+		send[d] = s
+		minDep[d] = bigStr(sdk.NewCoins(gp.MinDeposit...).AmountOf(d))
+	}
+	dp := a.DistrKeeper.GetParams(ctx)
+	ep := a.Erc20Keeper.GetParams(ctx)
+	sp := a.SlashingKeeper.GetParams(ctx)
+	return M{
+		"sendDefault": a.BankKeeper.GetParams(ctx).DefaultSendEnabled, "send": send,
+		"tax": dp.CommunityTax.BigInt().String(), "withdrawAddr": dp.WithdrawAddrEnabled,
+		"burnVeto": gp.BurnVoteVeto, "burnPrevote": gp.BurnProposalDepositPrevote, "burnQuorum": gp.BurnVoteQuorum,
+		"minDep": minDep, "erc20": ep.EnableErc20, "evmHook": ep.EnableEVMHook,
+		"fracDouble": sp.SlashFractionDoubleSign.BigInt().String(), "fracDowntime": sp.SlashFractionDowntime.BigInt().String(),
+		"powerReduction": sdk.DefaultPowerReduction.String(), "bondDenom": a.StakingKeeper.BondDenom(ctx),
+	}
+}
+
+// paramMsg is the authority message that sets one parameter, built from the parameters in force.
+func (x *brExec) paramMsg(ctx sdk.Context, key, denom, val string) (sdk.Msg, error) {
+	a := x.n.App
+	auth := authtypes.NewModuleAddress(govtypes.ModuleName).String()
+	on := val == "true"
+	dec := func() (sdk.Dec, error) { // val is the decimal x 10^18
+		b, ok := new(big.Int).SetString(val, 10)
+		if !ok {
+			return sdk.Dec{}, fmt.Errorf("bad decimal %q", val)
+		}
+		return sdk.NewDecFromBigIntWithPrec(b, 18), nil
+	}
+	switch key {
+	case "sendDefault":
+		p := a.BankKeeper.GetParams(ctx)
+		p.DefaultSendEnabled = on
+		return &banktypes.MsgUpdateParams{Authority: auth, Params: p}, nil
+	case "send":
+		if val == "unset" {
+			return banktypes.NewMsgSetSendEnabled(auth, nil, []string{denom}), nil
+		}
+		return banktypes.NewMsgSetSendEnabled(auth, []*banktypes.SendEnabled{{Denom: denom, Enabled: val == "on"}}, nil), nil
+	case "tax", "withdrawAddr":
+		p := a.DistrKeeper.GetParams(ctx)
+		if key == "tax" {
+			d, err := dec()
+			if err != nil {
+				return nil, err
+			}
+			p.CommunityTax = d
+		} else {
+			p.WithdrawAddrEnabled = on
+		}
+		return &distrtypes.MsgUpdateParams{Authority: auth, Params: p}, nil
+	case "burnVeto", "burnPrevote", "burnQuorum", "minDep":
+		p := a.GovKeeper.GetParams(ctx)
+		switch key {
+		case "burnVeto":
+			p.BurnVoteVeto = on
+		case "burnPrevote":
+			p.BurnProposalDepositPrevote = on
+		case "burnQuorum":
+			p.BurnVoteQuorum = on
+		case "minDep":
+			amt, ok := sdkmath.NewIntFromString(val)
+			if !ok || !amt.IsPositive() {
+				return nil, fmt.Errorf("bad amount %q", val)
+			}
+			cs := sdk.NewCoins()
+			for _, d := range []string{utils.BaseDenom, x.cfg.Denom2} {
+				if d != "" && (denom == "*" || denom == d) {
+					cs = cs.Add(sdk.NewCoin(d, amt))
+				}
+			}
+			if cs.Empty() {
+				return nil, fmt.Errorf("no deposit denomination %q", denom)
+			}
+			p.MinDeposit = cs
+		}
+		return &govv1.MsgUpdateParams{Authority: auth, Params: p}, nil
+	case "erc20", "evmHook":
+		p := a.Erc20Keeper.GetParams(ctx)
+		if key == "erc20" {
+			p.EnableErc20 = on
+		} else {
+			p.EnableEVMHook = on
+		}
+		return &erc20types.MsgUpdateParams{Authority: auth, Params: p}, nil
+	case "fracDouble", "fracDowntime":
+		p := a.SlashingKeeper.GetParams(ctx)
+		d, err := dec()
+		if err != nil {
+			return nil, err
+		}
+		if key == "fracDouble" {
+			p.SlashFractionDoubleSign = d
+		} else {
+			p.SlashFractionDowntime = d
+		}
+		return &slashingtypes.MsgUpdateParams{Authority: auth, Params: p}, nil
+	}
+	return nil, fmt.Errorf("unknown parameter %q", key)
 }
 
 // project reads the abstract state from the real stores.
@@ -390,6 +539,7 @@ func (x *brExec) project(ctx sdk.Context) M {
 		"redE":         redE,
 		"dels":         dels,
 		"props":        props,
+		"env":          x.envOf(ctx),
 	}
 }
 
@@ -714,6 +864,18 @@ func (x *brExec) buildTx(t M) ([]byte, error) {
 			return nil, err
 		}
 		return cosmos(400000, govv1beta1.NewMsgDeposit(from.Addr, id, brCoinsOf(t, "coins")))
+	case "paramprop":
+		// a proposal that carries the authority message of the module, with exactly the minimum deposit in force
+		msg, err := x.paramMsg(n.Ctx(), brStr(t, "key"), brStr(t, "denom"), brStr(t, "val"))
+		if err != nil {
+			return nil, err
+		}
+		dep := sdk.NewCoins(n.App.GovKeeper.GetParams(n.Ctx()).MinDeposit...)
+		sub, err := govv1.NewMsgSubmitProposal([]sdk.Msg{msg}, dep, from.Addr.String(), "", "set "+brStr(t, "key"), "parameter change")
+		if err != nil {
+			return nil, err
+		}
+		return cosmos(1000000, sub)
 	case "vote":
 		id, err := propID()
 		if err != nil {
@@ -777,7 +939,8 @@ func (x *brExec) deliver(t M) bool {
 		args["module"] = "-"
 	}
 	var nextProp uint64
-	if brStr(t, "k") == "submit" {
+	submits := brStr(t, "k") == "submit" || brStr(t, "k") == "paramprop"
+	if submits {
 		nextProp, _ = n.App.GovKeeper.GetProposalID(n.Ctx())
 	}
 	bz, err := x.buildTx(t)
@@ -787,7 +950,7 @@ func (x *brExec) deliver(t M) bool {
 	}
 	r := n.Deliver(bz)
 	ok := r.Code == 0
-	if ok && brStr(t, "k") == "submit" {
+	if ok && submits {
 		x.props[brStr(t, "prop")] = nextProp
 	}
 	burns, mints := brBankEvents(r.Events, x)
@@ -927,6 +1090,27 @@ func (x *brExec) opEndProposal(op M, votes string) {
 	}
 }
 
+// opSetParam changes one parameter the way a chain does it: a proposal with the authority message
+// and the minimum deposit, yes votes of all validators, the end of the voting period.  Whether the
+// change took effect is read from the stores (a chain without bonded validators passes nothing).
+func (x *brExec) opSetParam(op M) {
+	x.flush()
+	x.nparam++
+	name := fmt.Sprintf("pp%d", x.nparam)
+	key := brStr(op, "key")
+	before, _ := json.Marshal(x.envOf(x.preCtx()))
+	x.pending = append(x.pending, M{"k": "paramprop", "from": "a6", "prop": name, "key": key, "denom": brStr(op, "denom"), "val": brStr(op, "val")})
+	x.flush()
+	x.opEndProposal(M{"op": "setparam", "prop": name}, "yes")
+	after, _ := json.Marshal(x.envOf(x.preCtx()))
+	if string(before) != string(after) {
+		x.stats["setparam:applied"]++
+		x.stats["setparam:"+key]++
+	} else {
+		x.stats["setparam:noeffect"]++
+	}
+}
+
 // opBurn: a burn by a module other than staking / gov (control).
 func (x *brExec) opBurn(op M) {
 	amt := brStr(op, "amt")
@@ -942,9 +1126,14 @@ func (x *brExec) opBurn(op M) {
 			// set up: clawback vesting account with locked, fully vested coins -> liquidate
 			x.nvest++
 			vx := fmt.Sprintf("vx%d", x.nvest)
+			// gas money for the vesting account: a bank send, or an EVM transfer while the bank refuses sends
+			fund := "send"
+			if !x.n.App.BankKeeper.IsSendEnabledDenom(x.preCtx(), utils.BaseDenom) {
+				fund = "eth_send"
+			}
 			x.pending = append(x.pending,
 				M{"k": "vest_create", "from": "a6", "to": vx, "amt": "3000000000000000000000"},
-				M{"k": "send", "from": "a6", "to": vx, "amt": "5000000000000000000"})
+				M{"k": fund, "from": "a6", "to": vx, "amt": "5000000000000000000"})
 			x.flush()
 			pre := x.stats["tx:liquidate:ok"]
 			x.pending = append(x.pending, M{"k": "liquidate", "from": vx, "to": "a5", "amt": "1000000000000000000000"})
@@ -1010,6 +1199,8 @@ func (x *brExec) run(ops []M) {
 			x.opEndProposal(op, "yes")
 		case "noquorum", "expire":
 			x.opEndProposal(op, "")
+		case "setparam":
+			x.opSetParam(op)
 		case "burn":
 			x.flush()
 			x.opBurn(op)
@@ -1070,6 +1261,52 @@ func brRandomScript(r *rand.Rand, seed int64) brScript {
 	}
 	if r.Intn(4) == 0 {
 		cfg.UnbondingSecs = 30
+	}
+	// a third of the histories start from a non-default configuration
+	if r.Intn(3) == 0 {
+		pr := &brParams{}
+		switch r.Intn(4) {
+		case 0:
+			pr.SendDefaultOff = true
+		case 1:
+			pr.Send = map[string]bool{utils.BaseDenom: false}
+		case 2:
+			pr.SendDefaultOff = true
+			pr.Send = map[string]bool{cfg.Denom2: true}
+		case 3:
+			pr.Send = map[string]bool{cfg.Denom2: false}
+		}
+		pr.CommunityTax = []string{"", "0", "1", "0.5"}[r.Intn(4)]
+		pr.Erc20Off = r.Intn(3) == 0
+		pr.EvmHookOff = r.Intn(4) == 0
+		pr.WithdrawAddrOff = r.Intn(4) == 0
+		cfg.Params = pr
+	}
+	// a legal change of the configuration (executed as a proposal with the authority message)
+	boolStr := func() string { return []string{"true", "false", "false"}[r.Intn(3)] }
+	setparam := func() M {
+		op := M{"op": "setparam", "denom": "-"}
+		switch r.Intn(12) {
+		case 0, 1:
+			op["key"], op["val"] = "sendDefault", boolStr()
+		case 2, 3, 4:
+			op["key"], op["denom"] = "send", []string{utils.BaseDenom, utils.BaseDenom, cfg.Denom2}[r.Intn(3)]
+			op["val"] = []string{"off", "off", "on", "unset"}[r.Intn(4)]
+		case 5, 6:
+			op["key"] = "tax"
+			op["val"] = []string{"0", "0", "1000000000000000000", "1000000000000000000", "20000000000000000", "333333333333333333"}[r.Intn(6)]
+		case 7:
+			op["key"], op["val"] = []string{"burnVeto", "burnPrevote", "burnQuorum"}[r.Intn(3)], []string{"true", "false"}[r.Intn(2)]
+		case 8:
+			op["key"], op["denom"] = "minDep", []string{utils.BaseDenom, cfg.Denom2, "*"}[r.Intn(3)]
+			op["val"] = []string{"1000", "500", "700"}[r.Intn(3)]
+		case 9, 10:
+			op["key"], op["val"] = []string{"erc20", "erc20", "evmHook", "withdrawAddr"}[r.Intn(4)], boolStr()
+		default:
+			op["key"] = []string{"fracDouble", "fracDowntime"}[r.Intn(2)]
+			op["val"] = []string{"50000000000000000", "333333333333333333", "7", "10000000000000000", "250000000000000000"}[r.Intn(5)]
+		}
+		return op
 	}
 	amts := []string{"1", "999", "1000000000000000000", "333333333333333333333", "250000000000000000007", "77000000000000000000", "1234567890123456789012"}
 	small := []string{"1", "17", "499", "500", "1000", "123456789", "5000000000000000000"}
@@ -1137,9 +1374,14 @@ func brRandomScript(r *rand.Rand, seed int64) brScript {
 			}
 		}
 	}
+	if r.Intn(3) == 0 {
+		ops = append(ops, setparam())
+	}
 	nops := 22 + r.Intn(16)
 	for len(ops) < nops {
-		switch k := r.Intn(20); {
+		switch k := r.Intn(22); {
+		case k >= 20:
+			ops = append(ops, setparam())
 		case k < 2:
 			pr := pair{acct(), val()}
 			pairs = append(pairs, pr)
